@@ -154,10 +154,12 @@ def main(replay=None):
     cases = []   # dict(kind, text, files, routes, expect_code, depth)
 
     def add(kind, text, files=None, routes=ALL, **kw):
-        if b"__EVAL" in text or b"__EXEC" in text or b"__COUNTER" in text:
+        evals = b"__EVAL" in text or b"__EXEC" in text or b"__COUNTER" in text
+        if evals and not kind.startswith(("corpus:", "eval")):
             return   # __EVAL/__EXEC run SQF code at preprocessing time (execution bounds are C11's property);
                      # __COUNTER__ is a process-wide counter (C20's recorded counterexample), not a front-end matter
-        c = {"kind": kind, "text": text, "files": files or {}, "routes": routes, "expect_code": None, "depth": None, "expect_some": None}
+        c = {"kind": kind, "text": text, "files": files or {}, "routes": routes, "expect_code": None, "depth": None, "expect_some": None,
+             "impl_only": evals}     # dedicated __EVAL texts: totality of the implementation only (the front-end models have no evaluator)
         c.update(kw)
         cases.append(c)
 
@@ -171,6 +173,11 @@ def main(replay=None):
             r = json.load(open(os.path.join(cdir, fn)))
             add("corpus:" + fn, V.unhx(r["text_hex"]), {V.unhx(k): V.unhx(v) for k, v in r.get("files_hex", {}).items()},
                 r.get("routes", ALL), expect_code=r.get("expect_code"), expect_some=r.get("expect_some"))
+        # ---- expressions evaluated while preprocessing: with and without a value, failing, malformed (implementation only)
+        for k, ex in enumerate(["nil", "call {}", "if (false) then {1}", "([10, 20, 30] select 3) * 2", "1 + ", "\"a\" + 1", "[1,2] select 5", "{1}", "[]",
+                                "objNull", "configFile", "1; 2", "", " ", "((", "str nil", "private _a = 1", "throw 1", "exitWith {1}", "breakOut \"x\"",
+                                "createHashMap", "text \"a\"", "nil * nil", "[nil]", "call {nil}", "sqrt -1", "1e39 * 10"]):
+            add("eval:%d" % k, ("x = __EVAL(%s);\ny = [__EVAL(%s)];\n" % (ex, ex)).encode("latin-1"), routes="PP,PREPROCESS,DEF")
         files = corpus_files()
         # ---- whole files and their prefixes
         pre_cap = None if thorough else 120
@@ -359,6 +366,8 @@ def main(replay=None):
                                     rep_of(c, il, ml, route=route)))
                     continue
             # ---- 2. the mechanism models
+            if c.get("impl_only"):
+                continue
             if route in MODELLED and route in rm:
                 stats["model_comparisons"] += 1
                 m = rm[route]
